@@ -93,7 +93,7 @@ Section Doc.
     fuel1 fuel. cbn [main_loop]. rewrite sc_nl. tk.
     fuel1 fuel. cbn [main_loop]. rewrite sc_begin_trees. tk. rewrite sc_trees. rewrite sc_semi. tk.
     cbn [ns_table nexus0 ns_taxantax ns_taxlabels ns_trees ns_data ns_missing ns_gap ns_tabs] in *.
-    rewrite parse_trees_tr_spec; [|exact HP|exact HE|unfold taxa_text in *; len]. tk. cbn [tnames tstrings ttable app].
+    rewrite parse_trees_tr_spec; [|exact HP|exact HE|unfold taxa_text in *; len]. tk. cbn [tnames tstrings ttable app prev_trees ns_trees fst snd].
     fuel1 fuel. cbn [main_loop]. rewrite sc_nl0. tk.
     fuel1 fuel. cbn [main_loop]. rewrite sc_eof. tk. reflexivity.
   Qed.
